@@ -51,7 +51,7 @@ impl Prop for Sem {
             },
             Which::C02 => EvidenceSpec {
                 level: "model_checking",
-                rule: "Operand sweep: every one of the 9 binary operators and negation on every ordered pair of 19 boundary integers (0, +-1, +-2, +-3, +-7, +-2^31, +-(2^63-1), +-2^63, +-2^64, +-10^30; negative operands spelled both -n and 0 - n), expected results computed by the reference (division specified by its defining identity); factorial, Fibonacci, even/odd mutual recursion, accumulator recursion, higher-order `twice`, Ackermann for small arguments, evaluation-order probes in which only the prescribed order avoids a division by zero or a loop, 60 groups of four definitions with every subset of members named `_`, the repository's terminating examples; every sentence of the arithmetic / comparison sub-grammar over literals up to 9/10 tokens (all nine operators, negation, parentheses; distinct literal values by position; prescribed value = the reference interpreter on the tree grammar.y assigns, ill-typed sentences must be rejected); every type-directed program, the alias family and the type-valued groups. States = terms reached by the real `step`; in every visited state the reference interpreter started from that state must produce the same outcome as from the source program (semantic invariance), and the final value must be the prescribed one. non-trivial = programs whose ground value was compared".to_owned(),
+                rule: "Operand sweep: every one of the 9 binary operators and negation on every ordered pair of 19 boundary integers (0, +-1, +-2, +-3, +-7, +-2^31, +-(2^63-1), +-2^63, +-2^64, +-10^30; negative operands spelled both -n and 0 - n), expected results computed by the reference (division specified by its defining identity); factorial, Fibonacci, even/odd mutual recursion, accumulator recursion, higher-order `twice`, Ackermann for small arguments, evaluation-order probes in which only the prescribed order avoids a division by zero or a loop, 60 groups of four definitions with every subset of members named `_`, the repository's terminating examples; every sentence of the arithmetic / comparison sub-grammar over literals up to 11/12 tokens (all nine operators, negation, parentheses; distinct literal values by position; prescribed value = the reference interpreter on the tree grammar.y assigns, ill-typed sentences must be rejected); every type-directed program, the alias family and the type-valued groups. States = terms reached by the real `step`; in every visited state the reference interpreter started from that state must produce the same outcome as from the source program (semantic invariance), and the final value must be the prescribed one. non-trivial = programs whose ground value was compared".to_owned(),
                 assumptions: base_assumptions,
                 evaluations: "evaluations",
                 nontrivial: "nontrivial",
